@@ -707,6 +707,13 @@ class CodeGen:
                 # TODO: the case of speculation in bool_expr_branch can
                 #  be optimized, especially eg: if (f() ?? true) {}
                 end_speculation = self.add_label('end_speculation')
+                # r_out may be the storage of a global variable that is
+                # being assigned to.  The right operand's value must not
+                # be written there before the left operand (which may
+                # read that variable) is evaluated.
+                if r_out not in (self.r0, self.r1, self.r2):
+                    r_out = self.r1
+                    result = asm.State(r_out)
                 right_bubble = yield from self.eval_expr(r_out, expr.right, keep=True)
                 yield from right_bubble.value.to(r_out)
                 yield asm.Jump(end_speculation)
